@@ -35,4 +35,6 @@ var corpus = []string{
 	`local o = setmetatable({}, {__unm = function(a) return "neg" end, __tostring = function() return "str!" end, __metatable = "locked"}); emit(-o, tostring(o), getmetatable(o)); emit(pcall(function() return setmetatable(o, {}) end))`,
 	`local u = newud(); local mt = {__index = function(u, k) return k .. "?" end, __add = function(a, b) return "ud+" end}; local v = newud(mt); emit(v.foo, v + 1, 2 + v, type(v)); emit(pcall(function() return u.x end))`,
 	`local depth = setmetatable({}, {__index = setmetatable({}, {__index = setmetatable({}, {__index = function(t, k) return "deep:" .. k end})})}); emit(depth.key); local nmt = setmetatable({}, {__newindex = setmetatable({}, {__newindex = function(t,k,v) emit("deepset", k, v) end})}); nmt.q = 1; emit(rawget(nmt, "q"))`,
+	// fixed 52e547f: numbers and numeric strings are computed before an arithmetic handler is looked for
+	`local smt = getmetatable(""); smt.__add = function(a, b) emit("str-add", a, b); return "mm" end; emit("10" + 1, 1 + "10", "10" + "2"); emit(pcall(function() return "a" + 1 end)); emit(pcall(function() return 1 + "a" end)); local t = setmetatable({}, {__add = function(a, b) return type(a) .. type(b) end}); emit("10" + t, t + "10", t + 1); smt.__add = nil`,
 }
